@@ -235,6 +235,15 @@ def chain(ctx, rule):
             ctx.ob(rule, "canonicalize/only-when-requested/%s" % unparse(c.args[0]), ok, "canonicalize_url(%s) is not guarded by `if canonicalize`" % unparse(c.args[0]), lm.site(c))
             ctx.ob(rule, "canonicalize/result-rebinds-same-name/%s" % unparse(c.args[0]), bool(st) and isinstance(st[0].targets[0], ast.Name) and st[0].targets[0].id == unparse(c.args[0]), "the canonical form is not stored back into `%s`" % unparse(c.args[0]), lm.site(c))
     # order: should_follow < urljoin < is_url < canonicalize(link) < self-link test < unique < yield   (program order on the CFG)
+    # the "already seen" set: a local bound to set() that receives .add(<yielded variable>)
+    seen_sets = [n.targets[0].id for n in ast.walk(fn) if isinstance(n, ast.Assign) and isinstance(n.targets[0], ast.Name) and isinstance(n.value, ast.Call) and isinstance(n.value.func, ast.Name) and n.value.func.id == "set" and not n.value.args]
+    seen_name = None
+    for c in ast.walk(fn):
+        if isinstance(c, ast.Call) and isinstance(c.func, ast.Attribute) and c.func.attr == "add" and isinstance(c.func.value, ast.Name) and c.func.value.id in seen_sets:
+            seen_name = c.func.value.id
+    if seen_name is None:
+        seen_name = seen_sets[0] if seen_sets else "already_seen"
+
     def first(pred):
         xs = [n for n in g.nodes if n.ast is not None and pred(n)]
         return xs[0] if xs else None
@@ -244,7 +253,7 @@ def chain(ctx, rule):
         ("is_url", first(lambda n: n.kind == "test" and "is_url(" in unparse(n.ast))),
         ("canonicalize link", first(lambda n: n.kind == "stmt" and "canonicalize_url(%s" % var in unparse(n.ast))),
         ("self-link test", first(lambda n: n.kind == "test" and "base_url" in unparse(n.ast) and "==" in unparse(n.ast))),
-        ("already_seen test", first(lambda n: n.kind == "test" and "already_seen" in unparse(n.ast))),
+        ("already_seen test", first(lambda n: n.kind == "test" and seen_name in {x.id for x in ast.walk(n.ast) if isinstance(x, ast.Name)})),
         ("yield", y),
     ]
     for (na, a), (nb, b) in zip(seq, seq[1:]):
@@ -254,11 +263,11 @@ def chain(ctx, rule):
         ok = g.reachable(a, b, cross_back_edges=False) and not g.reachable(b, a, cross_back_edges=False)
         ctx.ob(rule, "order/%s<%s" % (na, nb), ok, "links_from_html performs '%s' after '%s'" % (na, nb), lm.site(b.ast))
     # unique: test-then-add on the yielded variable
-    adds = [c for c in ast.walk(fn) if isinstance(c, ast.Call) and isinstance(c.func, ast.Attribute) and c.func.attr == "add" and unparse(c.func.value) == "already_seen"]
+    adds = [c for c in ast.walk(fn) if isinstance(c, ast.Call) and isinstance(c.func, ast.Attribute) and c.func.attr == "add" and unparse(c.func.value) == seen_name]
     ok = len(adds) == 1 and unparse(adds[0].args[0]) == var
     ctx.ob(rule, "unique/adds-the-yielded-link", ok, "already_seen does not record the yielded link", site)
-    tests = [n for n in g.nodes if n.kind == "test" and src(n.ast) == "%sinalready_seen" % var]
-    ctx.ob(rule, "unique/tests-membership", len(tests) == 1, "links_from_html does not test `%s in already_seen`" % var, site)
+    tests = [n for n in g.nodes if n.kind == "test" and src(n.ast) == "%sin%s" % (var, seen_name)]
+    ctx.ob(rule, "unique/tests-membership", len(tests) == 1, "links_from_html does not test `%s in %s`" % (var, seen_name), site)
     for t in tests:
         guard = _enclosing_tests(fn, [x for x in ast.walk(fn) if isinstance(x, ast.If) and x.test is t.ast][0])
         ctx.ob(rule, "unique/only-when-requested", any(src(tt) == "unique" and pol for tt, pol in guard), "the duplicate filter is not guarded by `if unique`", site)
